@@ -57,7 +57,11 @@ func runC16(t *testing.T, e *worlds.Env, tier string) (bool, any) {
 		// configuration
 		var cmds []string
 		enabled := map[byte]bool{}
-		switch tp.Weighted("cmds", 3, 2, 2, 1, 1, 1, 1, 1, 1) {
+		switch tp.Weighted("cmds", 3, 2, 2, 1, 1, 1, 1, 1, 1, 1) {
+		case 9:
+			// a list that names nothing (blank entries, an unset placeholder): either the
+			// configuration is refused, or nothing is enabled - never the defaults
+			cmds = [][]string{{""}, {" "}, {"{env.VERIF_NEVER_SET}"}, {"", " "}}[tp.Choose(4, "blank-cmds")]
 		case 6:
 			cmds = []string{"connect"}
 			enabled[1] = true
@@ -99,7 +103,9 @@ func runC16(t *testing.T, e *worlds.Env, tier string) (bool, any) {
 		sample.Commands, sample.Creds = cmds, creds
 		h := &l4socks.Socks5Handler{Commands: cmds, Credentials: creds, BindIP: tp.Pick2("bind-ip", "", "10.0.0.1")}
 		if err := h.Provision(e.Ctx); err != nil {
-			panic(err)
+			// the configuration was refused (unknown or blank command names): nothing is served
+			sample.Model = "configuration refused: " + err.Error()
+			return func() bool { return true }
 		}
 		valid := map[string]string{}
 		for k, v := range creds {
@@ -219,11 +225,17 @@ func runC16(t *testing.T, e *worlds.Env, tier string) (bool, any) {
 		sample.Request = fmt.Sprintf("ver=%d cmd=%d atyp=%d", rver, cmd, atyp)
 		permitted = authed && rver == 5 && atypOK && enabled[cmd]
 		sample.Model = fmt.Sprintf("method=%#x authenticated=%v permitted=%v", serverMethod, authed, permitted)
+		// a client that does not take no for an answer: after a refusal (no acceptable method,
+		// failed authentication) it sends the next message anyway
+		pushy := tp.Prob(1, 3, "pushy")
+		if pushy {
+			sample.Cut = "ignores refusals; "
+		}
 		// truncation / early close
 		cutStage, cutAt := -1, 0
 		if tp.Prob(1, 5, "cut") {
 			cutStage = tp.Choose(3, "cut-stage")
-			sample.Cut = fmt.Sprintf("stage %d", cutStage)
+			sample.Cut += fmt.Sprintf("stage %d", cutStage)
 		}
 		sendMsg := func(conn net.Conn, stage int, msg []byte) bool {
 			if cutStage == stage {
@@ -266,7 +278,10 @@ func runC16(t *testing.T, e *worlds.Env, tier string) (bool, any) {
 				return
 			}
 			mr, ok := read(2)
-			if !ok || mr[0] != 5 || mr[1] == 0xff {
+			if !ok || mr[0] != 5 {
+				return
+			}
+			if mr[1] == 0xff && !pushy {
 				return
 			}
 			if mr[1] == 2 {
@@ -277,7 +292,10 @@ func runC16(t *testing.T, e *worlds.Env, tier string) (bool, any) {
 					return
 				}
 				ar, ok := read(2)
-				if !ok || ar[1] != 0 {
+				if !ok {
+					return
+				}
+				if ar[1] != 0 && !pushy {
 					return
 				}
 			}
